@@ -85,6 +85,73 @@ def _rename_overrides():
     return ov
 
 
+def _rename_param_overrides():
+    """Every positional parameter that no call site of a same-named function passes by keyword is renamed (p -> p_p):
+    a behaviour-preserving edit that a rule matching parameter names (`node.`, `tag.`) would react to."""
+    import ast
+    from ..model import REPO
+    trees = {}
+    for root, _, files in os.walk(os.path.join(REPO, "openpectus")):
+        for f in files:
+            if f.endswith(".py"):
+                p = os.path.join(root, f)
+                try:
+                    trees[p] = ast.parse(open(p, encoding="utf-8").read())
+                except (SyntaxError, OSError):
+                    pass
+    by_kw: set = set()       # (callee name, keyword) pairs seen anywhere (tests included)
+    for t in trees.values():
+        for n in ast.walk(t):
+            if isinstance(n, ast.Call):
+                nm = n.func.attr if isinstance(n.func, ast.Attribute) else (n.func.id if isinstance(n.func, ast.Name) else None)
+                for k in n.keywords:
+                    if k.arg:
+                        by_kw.add((nm, k.arg))
+                        if nm is None:
+                            by_kw.add((None, k.arg))
+
+    class PR(ast.NodeTransformer):
+        def visit_FunctionDef(self, node):
+            self.generic_visit(node)
+            if node.decorator_list or (node.name.startswith("__") and node.name.endswith("__")):
+                return node
+            a = node.args
+            nested = set()
+            for sub in ast.walk(node):
+                if sub is not node and isinstance(sub, (ast.FunctionDef, ast.AsyncFunctionDef, ast.Lambda)):
+                    for x in sub.args.posonlyargs + sub.args.args + sub.args.kwonlyargs:
+                        nested.add(x.arg)
+            m = {}
+            for x in a.posonlyargs + a.args:
+                if x.arg in ("self", "cls") or x.arg in nested or x.arg.endswith("_p"):
+                    continue
+                if (node.name, x.arg) in by_kw or (None, x.arg) in by_kw:
+                    continue
+                m[x.arg] = x.arg + "_p"
+            # an override must keep the parameter names of the methods it overrides only if called by keyword: covered by by_kw
+            for x in a.posonlyargs + a.args:
+                if x.arg in m:
+                    x.arg = m[x.arg]
+            for sub in ast.walk(node):
+                if isinstance(sub, ast.Name) and sub.id in m:
+                    sub.id = m[sub.id]
+            return node
+        visit_AsyncFunctionDef = visit_FunctionDef
+    ov = {}
+    for p, t in trees.items():
+        if os.sep + "test" in p:
+            continue
+        try:
+            t2 = PR().visit(t)
+            ast.fix_missing_locations(t2)
+            new = ast.unparse(t2)
+            compile(new, p, "exec")
+            ov[os.path.relpath(p, REPO)] = new
+        except SyntaxError:
+            pass
+    return ov
+
+
 def _run_variant(args):
     prop, variant = args
     from ..model import Program, AnchorError, REPO
@@ -102,6 +169,13 @@ def _run_variant(args):
             except AnchorError as ex:
                 return "anchor: " + str(ex)[:150]
             return {(fd.rule, fd.function, fd.construct) for fd in ctx.findings}
+        if variant["roundtrip"] == "params":
+            a, b = fnd({}), fnd(_rename_param_overrides())
+            if isinstance(a, set) and isinstance(b, set):
+                a, b = sorted((r, fn) for r, fn, c in a), sorted((r, fn) for r, fn, c in b)
+            if a == b:
+                return variant["id"], "silent", ""
+            return variant["id"], "false-alarm", f"findings differ after renaming every parameter not passed by keyword: {str(a)[:90]} vs {str(b)[:140]}"
         if variant["roundtrip"] == "rename":
             a, b = fnd({}), fnd(_rename_overrides())
             # construct texts legitimately contain local names: compare (rule, function) multisets
@@ -175,6 +249,8 @@ def run_audit(props: list[str] | None = None, jobs: int = 16) -> dict:
                                   replace="", why="every source file re-emitted by ast.unparse (comments, line numbers, quoting change)")))
             todo.append((pr, dict(id=f"{pr}-rename-locals", prop=pr, kind="equivalent", roundtrip="rename", expect="", file="", find="",
                                   replace="", why="every assigned local variable of every function alpha-renamed")))
+            todo.append((pr, dict(id=f"{pr}-rename-params", prop=pr, kind="equivalent", roundtrip="params", expect="", file="", find="",
+                                  replace="", why="every parameter that is never passed by keyword renamed")))
     t0 = time.time()
     results = []
     if todo:
